@@ -338,6 +338,9 @@ func runRowsCase(c *vf.Ctx, env *rowsEnv, rc *rowsCase) {
 		}
 	}
 	c.Count("rows-compared", int64(len(out)))
+	if rc.Idx == 0 || rc.Idx == 11 {
+		c.Sample(map[string]any{"part": "rows", "shape": rc.Shape, "rows": len(out), "encoded_bytes": len(bin), "features": rowsFeature(rc)})
+	}
 	feat := rowsFeature(rc)
 	c.Distinct("row-batch-features", feat)
 	if len(out) > 1 || feat != "plain" {
@@ -490,6 +493,9 @@ func runRecCase(c *vf.Ctx, rc *recCase, r *rand.Rand, reuse *record.Record) {
 		}
 	}
 	c.Count("record-codec-columns-compared", int64(len(want)))
+	if rc.Idx == 0 {
+		c.Sample(map[string]any{"part": "record-codec", "rows": l.rows(), "columns": panicInputClass(l), "sliced_input": l.Head > 0, "encoded_bytes": len(buf)})
+	}
 	if l.Head > 0 {
 		c.Count("record-codec-sliced-input", 1)
 		c.Nontrivial(fmt.Sprintf("record-codec/sliced/cols=%d", len(l.Cols)))
